@@ -65,7 +65,7 @@ def run(rep, tier):
         if "panic" in r or not r.get("accepted"):
             rep.violation("ident/constructor-output-rejected/%s" % r["ctor"], r)
     # impl -> spec
-    n = 60000 if thorough else 8000
+    n = 150000 if thorough else 8000
     tpath = vlib.record_trace("C10", ["record", "c10", "--n", str(n)])
     recs = vlib.read_ndjson(tpath)
     nrec, bad = vlib.validate_trace(rep, "C10", "Trace_C10", tpath, stack="1g")
